@@ -795,8 +795,14 @@ fn family_buffer(ctx: &mut Ctx) {
                     let mut b = buffer.builder();
                     let ids = run_prog(&mut b, prog);
                     (b.build(), ids)
-                } else {
+                } else if (prog.len() + *n) % 2 == 0 {
                     let mut b = buffer.builder().with_attributes(*n);
+                    let ids = run_prog(&mut b, prog);
+                    (b.build(), ids)
+                } else {
+                    // the public constructor of the attribute-carrying builder (a different code path
+                    // from `builder().with_attributes(n)`)
+                    let mut b = lyon_path::path_buffer::BuilderWithAttributes::new(&mut buffer, *n);
                     let ids = run_prog(&mut b, prog);
                     (b.build(), ids)
                 };
